@@ -611,6 +611,53 @@ def anchored(ctx, col):
                                     f"`if {norm_src(n.test)}: {norm_src(n.body[0])}` answers from the numbering alone and admits equality: a node that is its "
                                     f"own parent (pid == id) passes the shortcut, i.e. a self-loop is not reported", stmt="shortcut", definite=True)
     s1 = repo.get_def(f"{CHK}.is_single_root")
+    # connectivity is a statement about the edges: never decided from the number of "no parent" markers (a cyclic table has none and can still be connected)
+    col.rule("R-CONNDEF", "is_single_root decides connectivity from the component labels on every path: no constant answer is returned under a test on the parent column / the -1 "
+             "root marker (for tables with cycles the number of root markers says nothing: pid [1, 2, 0] has none and is connected)", floor=1)
+    from .. import pathcond as _pc
+    n_const = 0
+    for r_ in own_nodes(s1):
+        if isinstance(r_, ast.Return) and isinstance(r_.value, ast.Constant) and isinstance(r_.value.value, bool):
+            tests_, _c = _pc.conditions_at(s1.node, r_)
+            on_roots = [t_ for t_, _p in tests_ if "pid" in norm_src(t_) or "-1" in norm_src(t_) or "root" in norm_src(t_).lower()]
+            verdict = None
+            if on_roots and r_.value.value is False:
+                # two or more root markers do imply two or more components; none does not (cycles).  Fold the tests with "number of root markers" = 0.
+                import copy as _copy
+                from ..rules.idxguard import _ev as _fold, _No as _NoFold
+
+                class _Zero(ast.NodeTransformer):
+                    def visit_Call(self, n):
+                        if "-1" in norm_src(n) and any(k in norm_src(n.func) for k in ("count_nonzero", "sum", "len")):
+                            return ast.copy_location(ast.Constant(value=0), n)
+                        return self.generic_visit(n)
+
+                    def visit_Name(self, n):
+                        b_ = [a.value for a in own_nodes(s1) if isinstance(a, ast.Assign) and len(a.targets) == 1 and isinstance(a.targets[0], ast.Name) and a.targets[0].id == n.id]
+                        if len(b_) == 1 and "-1" in norm_src(b_[0]) and isinstance(b_[0], ast.Call):
+                            return self.visit(_copy.deepcopy(b_[0]))
+                        return n
+                try:
+                    verdict = all(bool(_fold(_Zero().visit(_copy.deepcopy(t_)), {})) == p_ for t_, p_ in tests_)
+                except _NoFold:
+                    verdict = None
+                if verdict is False:
+                    n_const += 1
+                    col.ok("R-CONNDEF", s1.qualname, s1.loc(r_), "connected or not is read off the component labels",
+                           f"`return False` under `{norm_src(on_roots[0])[:60]}` cannot be taken with no root marker: two or more markers do mean two or more components", stmt="conn-by-rootcount")
+                    continue
+                if verdict is None:
+                    n_const += 1
+                    col.unresolved("R-CONNDEF", s1.qualname, s1.loc(r_), "connected or not is read off the component labels",
+                                   f"`return False` under `{norm_src(on_roots[0])[:60]}`: cannot fold the test for a table without root markers", stmt="conn-by-rootcount")
+                    continue
+            if on_roots:
+                n_const += 1
+                col.bad("R-CONNDEF", s1.qualname, s1.loc(r_), "connected or not is read off the component labels",
+                        f"`return {r_.value.value}` under `{norm_src(on_roots[0])[:70]}`: the answer is taken from the count of root markers; a table with a cycle has fewer markers than "
+                        f"components (none at all for pid [1, 2, 0], or for a self-parented single node) and is answered wrongly", stmt="conn-by-rootcount", definite=True)
+    if not n_const:
+        col.ok("R-CONNDEF", s1.qualname, s1.loc(), "connected or not is read off the component labels", "no constant answer under a root-marker test", stmt="conn-by-rootcount")
     col.text_group("R-CHECK", s1.qualname, s1, [("connected <=> exactly one component label", ["return len(np.unique(get_dsu(df, names=names))) == 1"], "single")],
                    fixed=("df", "names", "get_dsu"))
     g = repo.get_def("swcgeom.core.swc_utils.base.get_dsu")
